@@ -165,4 +165,40 @@ theorem pyArgsK_plain (ps : List KParam) (a1 : List Val) (k1 : List (String × V
       rw [pyBindPartialK_plain ps a1 k1 b1 hnd h1, pyBindPartialK_plain ps a2 k2 b2 hnd h2]
       exact h
 
+/-- the keywords of a call Python's binder accepts are names of parameters -/
+theorem pyArgsK_keys (ps : List KParam) (a1 : List Val) (k1 : List (String × Val)) (a2 : List Val)
+    (k2 : List (String × Val)) (vs : List Val) (h : pyArgsK ps a1 k1 a2 k2 = .ok vs) :
+    ∀ q ∈ k2, ∃ p ∈ ps, p.name = q.1 := by
+  unfold pyArgsK at h
+  cases h1 : pyBindPartialK ps a1 k1 with
+  | error e => simp [h1] at h
+  | ok b1 =>
+    cases h2 : pyBindPartialK ps a2 k2 with
+    | error e => simp [h1, h2] at h
+    | ok b2 =>
+      intro q hq
+      obtain ⟨p, hp, hn, _⟩ := pyBindPartialK_keys ps a2 k2 b2 h2 q hq
+      exact ⟨p, hp, hn⟩
+
+/-- keywords that are names of parameters none of which is called like a keyword of `Node.run` pass through
+`__call__ → pull → run` untouched -/
+theorem runKeywords_pass (ps : List KParam) (kw : List (String × Val))
+    (hk : ∀ q ∈ kw, ∃ p ∈ ps, p.name = q.1) (hrun : ∀ p ∈ ps, runKeywords.contains p.name = false) :
+    kw.any (fun q => runFlagsClash.contains q.1) = false ∧ kw.filter (fun q => q.1 != runFlagSilent) = kw := by
+  have key : ∀ q ∈ kw, runFlagsClash.contains q.1 = false ∧ q.1 ≠ runFlagSilent := by
+    intro q hq
+    obtain ⟨p, hp, hn⟩ := hk q hq
+    have := hrun p hp
+    rw [hn] at this
+    simp only [runKeywords, List.contains_cons, Bool.or_eq_false_iff, beq_eq_false_iff_ne] at this
+    exact ⟨this.2, this.1⟩
+  refine ⟨?_, ?_⟩
+  · simp only [List.any_eq_false]
+    intro q hq
+    rw [(key q hq).1]
+    simp
+  · rw [List.filter_eq_self]
+    intro q hq
+    simpa using (key q hq).2
+
 end PwVerif.Kinds
